@@ -261,10 +261,11 @@ func (er *emptResolver) facts(owner *ast.FuncDecl, e ast.Expr, truth bool, depth
 					op = token.LSS
 				}
 			}
+			// a size is never negative
 			switch {
-			case op == token.EQL && k == 0, op == token.LEQ && k == 0, op == token.LSS && k == 1:
+			case op == token.EQL && k == 0, op == token.LEQ && k <= 0, op == token.LSS && k <= 1:
 				return []emptFact{factEmpty}
-			case op == token.NEQ && k == 0, op == token.GTR && k == 0, op == token.GEQ && k == 1:
+			case op == token.NEQ && k == 0, op == token.GTR && k >= 0, op == token.GEQ && k >= 1, op == token.EQL && k >= 1:
 				return []emptFact{factNonEmpty}
 			}
 			return []emptFact{factOther}
